@@ -72,6 +72,7 @@ class PairAnalysis:
         self.S = S
         self.facts = facts
         self.req = {}      # fid -> {pair index: [use dict]}
+        self.local_sites = {}
         self.visits = 0
 
     def family(self):
@@ -100,6 +101,8 @@ class PairAnalysis:
 
     def analyse(self, f):
         facts = self.facts
+        for key in [k for k in self.local_sites if k[0] == f.fid]:
+            del self.local_sites[key]
         prs = pairs_of(f)
         kset = {}   # var id -> pair index (K params and their init-aliases)
         eof = {}    # pair index -> E id
@@ -168,18 +171,39 @@ class PairAnalysis:
                 return ('use', 'K.%s()' % cn)
             return ('use', p['k'] + (' ' + p.get('cq', '') if p.get('cq') else ''))
 
+        eparams = set(eof.values())
+
         def step(ctx, n, st):
+            fs, norm, cp = st
+            r = step0(ctx, n, (fs, norm), cp)
+            return r
+
+        def step0(ctx, n, st, cp):
             fs, norm = st
             fs = R.track_assign(f, n, fs, facts, tracked_types=(is_ep,))
             k = n['k']
             if k == 'BinaryOperator' and n.get('op') == '=':
                 c = f.ch(n)
                 lhs, rhs = f.strip(c[0]), f.strip(c[1], casts=True)
-                if lhs is not None and lhs['k'] == 'DeclRefExpr' and is_ep(lhs.get('ty', '')) and \
-                        rhs is not None and rhs['k'] == 'DeclRefExpr' and is_ep(rhs.get('ty', '')):
-                    fs = R.facts_set(fs, lhs['id'], R.facts_get(fs, rhs['id']))
-                return (fs, norm)
+                if lhs is not None and lhs['k'] == 'DeclRefExpr' and is_ep(lhs.get('ty', '')):
+                    cp = frozenset(x for x in cp if x[0] != lhs['id'])
+                    if rhs is not None and rhs['k'] == 'DeclRefExpr' and is_ep(rhs.get('ty', '')):
+                        fs = R.facts_set(fs, lhs['id'], R.facts_get(fs, rhs['id']))
+                        src = rhs['id'] if rhs['id'] in eparams else next((y for (x, y) in cp if x == rhs['id']), None)
+                        if src:
+                            cp = cp | {(lhs['id'], src)}
+                return (fs, norm, cp)
             if k == 'DeclStmt':
+                for v in n.get('vars', []):
+                    if is_ep(v['type']):
+                        cp = frozenset(x for x in cp if x[0] != v['id'])
+                        if 'init' in v:
+                            rhs = f.strip(v['init'], casts=True)
+                            if rhs is not None and rhs['k'] == 'DeclRefExpr' and is_ep(rhs.get('ty', '')):
+                                fs = R.facts_set(fs, v['id'], R.facts_get(fs, rhs['id']))
+                                src = rhs['id'] if rhs['id'] in eparams else next((y for (x, y) in cp if x == rhs['id']), None)
+                                if src:
+                                    cp = cp | {(v['id'], src)}
                 for v in n.get('vars', []):
                     if v['id'] in alias_decl:
                         if alias_decl[v['id']] in norm:
@@ -191,7 +215,7 @@ class PairAnalysis:
                             norm = norm | {v['id']}
                         else:
                             norm = norm - {v['id']}
-                return (fs, norm)
+                return (fs, norm, cp)
             if k == 'CXXOperatorCallExpr' and n.get('cn') == 'operator=' and n.get('mcls') == 'std::basic_string_view':
                 a = [f.node(x) for x in n['args']]
                 lhs = f.strip(a[0], casts=True)
@@ -203,16 +227,16 @@ class PairAnalysis:
                         norm = norm | {lhs['id']}
                     else:
                         norm = norm - {lhs['id']}
-                return (fs, norm)
+                return (fs, norm, cp)
             if k == 'CXXMemberCallExpr' and n.get('cn') in ('remove_prefix', 'remove_suffix', 'swap'):
-                return (fs, norm)  # shrinking an empty view keeps it empty; non-empty handled by use rule
+                return (fs, norm, cp)  # shrinking an empty view keeps it empty; non-empty handled by use rule
             if k == 'DeclRefExpr' and n.get('id') in kset:
                 i = kset[n['id']]
                 e = eof[i]
                 safe = excludes_inf(fs, e) or (n['id'] in norm)
                 kind, payload = classify(n, ctx.block)
                 if kind in ('alias', 'assign', 'exempt'):
-                    return (fs, norm)
+                    return (fs, norm, cp)
                 if kind == 'pairpass':
                     call, j, e2 = payload
                     # find callee pair index
@@ -224,23 +248,31 @@ class PairAnalysis:
                     else:
                         if creq.get(j):
                             ok = excludes_inf(fs, e2) or (n['id'] in norm)
-                            if not ok and e2 == e:
+                            if not ok and (e2 == e or (e2, e) in cp):
                                 # the requirement propagates to our own callers
                                 uses.setdefault(i, {}).setdefault(
                                     'passes %s to %s which requires a normalised pair' % (n['name'], call.get('cq')),
                                     {'loc': short_loc(n), 'path': ctx.witness(), 'var': n['name']})
                             elif not ok:
-                                uses.setdefault(i, {}).setdefault(
-                                    'passes %s with endpoint %s (possibly INF) to %s' % (n['name'], vname(e2), call.get('cq')),
-                                    {'loc': short_loc(n), 'path': ctx.witness(), 'var': n['name']})
-                        return (fs, norm)
+                                # the endpoint is not the caller's: it was set locally and may be INF while the
+                                # key still has content - nothing a caller could normalise
+                                site = 'call %s pair #%d (%s, %s)' % (call.get('cq'), j, n['name'], vname(e2))
+                                ent = self.local_sites.setdefault((f.fid, site),
+                                                                  {'ok': True, 'loc': short_loc(n), 'path': None})
+                                ent['ok'] = False
+                                ent['path'] = ent['path'] or ctx.witness()
+                            else:
+                                site = 'call %s pair #%d (%s, %s)' % (call.get('cq'), j, n['name'], vname(e2))
+                                self.local_sites.setdefault((f.fid, site),
+                                                            {'ok': True, 'loc': short_loc(n), 'path': None})
+                        return (fs, norm, cp)
                 if kind == 'copy':
-                    return (fs, norm)  # value flows into another view; handled at that view's call sites
+                    return (fs, norm, cp)  # value flows into another view; handled at that view's call sites
                 if not safe:
                     uses.setdefault(i, {}).setdefault(
                         '%s of %s' % (payload, n['name']),
                         {'loc': short_loc(n), 'path': ctx.witness(), 'var': n['name']})
-                return (fs, norm)
+                return (fs, norm, cp)
             # local (K', E') pairs passed to a trusting callee
             if k in CALL_KINDS and (n.get('cq') or '').startswith('yakushima::') and k != 'CXXMemberCallExpr':
                 tg = facts.get(n.get('callee'))
@@ -269,16 +301,14 @@ class PairAnalysis:
                         if not ok:
                             ent['ok'] = False
                             ent['path'] = ent['path'] or ctx.witness()
-            return (fs, norm)
+            return (fs, norm, cp)
 
         def branch(ctx, blk, idx, st):
             fs2 = R.refine(f, blk, idx, st[0], tracked=is_ep)
-            return None if fs2 is None else (fs2, st[1])
+            return None if fs2 is None else (fs2, st[1], st[2])
 
-        if not hasattr(self, 'local_sites'):
-            self.local_sites = {}
         ex = Explorer(f, step, branch)
-        ex.run((frozenset(), frozenset()))
+        ex.run((frozenset(), frozenset(), frozenset()))
         self.visits += ex.visits
         return {i: list(u.items()) for i, u in uses.items()}
 
